@@ -5,7 +5,14 @@ package main
 // correspondence under the pseudo-property C11CSV (checklib/models/csvfy.py `second`), routed by first token through
 // hx.Dispatch.
 
-import "verifharness/csvfy"
+import (
+	"bufio"
+	"bytes"
+	"fmt"
+	"strings"
+
+	"verifharness/csvfy"
+)
 
 func init() {
 	handlers["CSV"] = csvfy.Handle
@@ -13,4 +20,17 @@ func init() {
 		gens[p] = append(gens[p], forProp(p, csvfy.Gen))
 	}
 	gens["C11CSV"] = []genFunc{forProp("C11", csvfy.Gen)}
+	// C16: the CMS of a code signature in BER forms of the same value (and the unmodified image as control)
+	gens["C16CSV"] = []genFunc{func(w *bufio.Writer, seed uint64, tier string) {
+		var buf bytes.Buffer
+		bw := bufio.NewWriter(&buf)
+		csvfy.Gen(bw, seed, tier, "C02")
+		bw.Flush()
+		for _, line := range strings.Split(buf.String(), "\n") {
+			f := strings.Fields(line)
+			if len(f) > 3 && f[1] == "verify" && (strings.Contains(f[2], ":cms-ber-") || strings.HasSuffix(f[2], ":none")) {
+				fmt.Fprintln(w, line)
+			}
+		}
+	}}
 }
